@@ -8,7 +8,7 @@ from ..gen import (EXTRA, Kernel, Untranslatable, all_stmts, assign_value, find_
 from ..pyexpr import ExprTr, emit_def, translate_block
 
 T = "direct/data/transforms.py"
-CROP = ("DirectVerif.Model.Crop",)
+CROP = ("DirectVerif.Model.Crop", "DirectVerif.Model.C10Modules")
 SHIFT = ("DirectVerif.Model.Shift",)
 
 # =================================================================================================
@@ -226,79 +226,134 @@ register("C10", [
 
 
 # -------------------------------------------------------------------------------------------------
-# PadKspace / CropKspace: the chain of calls applied to sample[kspace] (data-flow from `kspace` to the stored result)
+# PadKspace / CropKspace / RescaleKspace (and PadCoilDimensionModule): structural tables (recipes/c10_tables.py)
+#   * the chain of calls applied to the k-space, WITH the key it is read from and stored under (helper functions are
+#     followed through their call-site bindings and parameter defaults)
+#   * writes to instance / class / module state outside __init__
+#   * every access to the sample dict with its (resolved) key expression
+#   * the if-chain that resolves CropKspace's crop shape for the three argument forms
 MT = "direct/data/mri_transforms.py"
+MODULE_CLASSES = ["CropKspace", "RescaleKspace", "PadKspace", "PadCoilDimensionModule"]
 
 
-def _kspace_plan(cls: str, start: str = "kspace") -> list[str]:
-    from ..gen import REPO, find_function, parse_file
+def _lean_str(s: str) -> str:
+    return '"' + s.replace("\\", "\\\\").replace('"', '\\"') + '"'
 
-    fn = find_function(parse_file(REPO / MT), f"{cls}.__call__")
-    cur = {start}
-    plan: list[str] = []
-    stored = False
-    for st in fn.body:
-        if not isinstance(st, ast.Assign) or len(st.targets) != 1:
-            continue
-        tgt, val = st.targets[0], st.value
-        if not isinstance(val, ast.Call):
-            continue
-        fname = ast.unparse(val.func)
-        # which argument carries the current tensor?  positional arg 0, `data_list=[x]` via cropper_args, or a dict splat
-        args = [ast.unparse(a) for a in val.args]
-        uses = any(a in cur for a in args[:1]) or any(
-            isinstance(kw.value, (ast.Name, ast.List)) and any(n.id in cur for n in ast.walk(kw.value) if isinstance(n, ast.Name))
-            for kw in val.keywords if kw.arg is not None)
-        if not uses and fname == "self.crop_func":
-            # crop_func(**cropper_args) where cropper_args["data_list"] = [<current>]
-            for st2 in fn.body:
-                if (isinstance(st2, ast.Assign) and ast.unparse(st2.targets[0]) == "cropper_args"
-                        and isinstance(st2.value, ast.Dict)):
-                    for k, v in zip(st2.value.keys, st2.value.values):
-                        if getattr(k, "value", None) == "data_list" and any(
-                                isinstance(n, ast.Name) and n.id in cur for n in ast.walk(v)):
-                            uses = True
-        if not uses:
-            continue
-        short = fname.split(".")[-1]
-        plan.append(short)
-        if isinstance(tgt, ast.Name):
-            cur = {tgt.id}
-        elif isinstance(tgt, ast.Subscript) and ast.unparse(tgt.value) == "sample":
-            key = ast.unparse(tgt.slice)
-            if key in ("self.kspace_key", "'kspace'", '"kspace"'):
-                stored = True
-                break
-            else:
-                plan.pop()      # a side product (sampling_mask crop etc.), not the k-space chain
-    if not stored:
-        raise Untranslatable(f"{cls}.__call__: result is not stored back under the k-space key")
-    return plan
+
+def _rows3(rows) -> str:
+    return "[" + ",\n   ".join("(" + ", ".join(_lean_str(x) for x in r) + ")" for r in rows) + "]"
+
+
+_CROP_VALUES = {
+    "IntegerListOrTupleString(self.crop)": "crop",
+    "sample[self.crop][:-1]": "keyVal.dropLast",
+    "(kspace.shape[1],) + tuple(self.crop)": "(slices :: crop)",
+    "(kspace.shape[1], *self.crop)": "(slices :: crop)",
+    "tuple(self.crop)": "crop", "list(self.crop)": "crop", "self.crop": "crop",
+}
+_CROP_BOOL = {
+    "isinstance(self.crop, IntegerListOrTupleString)": "(form == Crop.CropForm.intString)",
+    "isinstance(self.crop, str)": "(form == Crop.CropForm.intString || form == Crop.CropForm.key)",
+}
+_CROP_SIG = "(form : Crop.CropForm) (ndim : Int) (crop keyVal : List Int) (slices : Int) : List Int"
+
+
+def _crop_shape_def(tree) -> str:
+    from . import c10_tables as tb
+
+    rows = tb.crop_shape_rule(tree)
+    tr = ExprTr({"kspace.ndim": "ndim", "len(self.crop)": "cropLen", "len(kspace.shape)": "ndim", "kspace.dim()": "ndim"},
+                _CROP_BOOL)
+    out = "  let cropLen : Int := crop.length\n"
+    for cond, val in rows:
+        if val not in _CROP_VALUES:
+            raise Untranslatable(f"crop_shape value `{val}`")
+        if cond == "else":
+            out += f"  {_CROP_VALUES[val]}\n"
+            break
+        c = tr.bool(ast.parse(cond, mode="eval").body)
+        out += f"  if {c} then {_CROP_VALUES[val]} else\n"
+    else:
+        raise Untranslatable("crop_shape chain does not end in else")
+    return f"def crop_shape_resolve {_CROP_SIG} :=\n{out}"
 
 
 _prev_extra = EXTRA["C10"]
 
 
 def _c10_extra2():
+    from ..gen import REPO as _R, parse_file as _pf
+    from . import c10_tables as tb
+
     text, status = _prev_extra()
-    for cls, name, fallback in (("PadKspace", "padKspacePlan", "Crop.padKspacePlan"),
-                                ("CropKspace", "cropKspacePlan", "Crop.cropKspacePlan")):
+    try:
+        tree = _pf(_R / MT)
+    except (SyntaxError, OSError) as e:
+        tree, tree_err = None, e
+
+    def guarded(f):
+        if tree is None:
+            raise Untranslatable(f"cannot parse {MT}: {tree_err}")
+        return f()
+
+    # ---- plans with key plumbing
+    for cls, name, fallback, io_fb in (("PadKspace", "padKspacePlan", "Crop.padKspacePlan", "Crop.padKspaceIO"),
+                                       ("CropKspace", "cropKspacePlan", "Crop.cropKspacePlan", "Crop.cropKspaceIO")):
         try:
-            plan = _kspace_plan(cls)
-            items = ", ".join(f'"{p}"' for p in plan)
-            from ..gen import REPO as _R, find_function as _ff, parse_file as _pf
-            fn = _ff(_pf(_R / MT), f"{cls}.__call__")
-            n_ret = sum(isinstance(n, ast.Return) for n in ast.walk(fn))
-            text += (f"\n/-- translated from `{MT}`:`{cls}.__call__` (calls applied to the k-space, in order) -/\n"
+            fl = guarded(lambda: tb.kspace_flow(tree, cls))
+            items = ", ".join(_lean_str(p) for p in fl["plan"])
+            text += (f"\n/-- translated from `{MT}`:`{cls}` (calls applied to the k-space, in order; helper functions and nested\n"
+                     f"functions followed) -/\n"
                      f"def {name}Names : List String := [{items}]\n"
                      f"def {name} : Option (List Crop.KOp) := {name}Names.mapM Crop.KOp.ofString\n"
+                     f"/-- the key expression the chain starts from (`kspace = sample[…]`) and the one it is stored under -/\n"
+                     f"def {name}IONames : String × String := ({_lean_str(fl['read'])}, {_lean_str(fl['write'])})\n"
+                     f"def {name}IO : Crop.KIO := ⟨Crop.KeyRef.ofString {name}IONames.1, Crop.KeyRef.ofString {name}IONames.2⟩\n"
                      f"/-- number of `return` statements in `{cls}.__call__` (1 = only the final one: no early exit that\n"
-                     f"skips the plan) -/\ndef {name}Returns : Nat := {n_ret}\n")
+                     f"skips the plan) -/\ndef {name}Returns : Nat := {fl['returns']}\n")
             status[name] = "translated"
         except Untranslatable as e:
             text += (f"\n/-- SKIPPED ({e}) -/\ndef {name} : Option (List Crop.KOp) := some {fallback}\n"
-                     f"def {name}Returns : Nat := 1\n")
+                     f"def {name}IO : Crop.KIO := {io_fb}\ndef {name}Returns : Nat := 1\n")
             status[name] = f"skipped: {e}"
+    try:
+        fl = guarded(lambda: tb.kspace_flow(tree, "RescaleKspace"))
+        text += (f"\n/-- translated from `{MT}`:`RescaleKspace`: keys of the k-space read and store -/\n"
+                 f"def rescaleKspaceIONames : String × String := ({_lean_str(fl['read'])}, {_lean_str(fl['write'])})\n"
+                 f"def rescaleKspaceIO : Crop.KIO := ⟨Crop.KeyRef.ofString rescaleKspaceIONames.1, "
+                 f"Crop.KeyRef.ofString rescaleKspaceIONames.2⟩\n")
+        status["rescaleKspaceIO"] = "translated"
+    except Untranslatable as e:
+        text += f"\n/-- SKIPPED ({e}) -/\ndef rescaleKspaceIO : Crop.KIO := Crop.rescaleKspaceIO\n"
+        status["rescaleKspaceIO"] = f"skipped: {e}"
+    # ---- state writes
+    try:
+        rows = guarded(lambda: tb.self_writes(tree, MODULE_CLASSES))
+        text += (f"\n/-- translated from `{MT}`: writes to instance / class / module state in every method other than `__init__`\n"
+                 f"(and the private helpers they call) of {', '.join(MODULE_CLASSES)}: (class, function, what) -/\n"
+                 f"def moduleStateWrites : List (String × String × String) :=\n  {_rows3(rows)}\n")
+        status["moduleStateWrites"] = f"translated ({len(rows)} rows)"
+    except Untranslatable as e:
+        text += f"\n/-- SKIPPED ({e}) -/\ndef moduleStateWrites : List (String × String × String) := []\n"
+        status["moduleStateWrites"] = f"skipped: {e}"
+    # ---- sample accesses
+    try:
+        rows = guarded(lambda: tb.key_accesses(tree, MODULE_CLASSES))
+        text += (f"\n/-- translated from `{MT}`: every access to the sample dictionary, (class, read|write|escape, key expression);\n"
+                 f"keys resolved through local aliases and through helper functions (call-site binding, parameter defaults) -/\n"
+                 f"def moduleKeyAccess : List (String × String × String) :=\n  {_rows3(rows)}\n")
+        status["moduleKeyAccess"] = f"translated ({len(rows)} rows)"
+    except Untranslatable as e:
+        text += f"\n/-- SKIPPED ({e}) -/\ndef moduleKeyAccess : List (String × String × String) := Crop.keyAccessModel\n"
+        status["moduleKeyAccess"] = f"skipped: {e}"
+    # ---- crop shape rule
+    try:
+        text += (f"\n/-- translated from `{MT}`:`CropKspace.__call__` (the if-chain assigning `crop_shape`) -/\n"
+                 + guarded(lambda: _crop_shape_def(tree)))
+        status["crop_shape_resolve"] = "translated"
+    except Untranslatable as e:
+        text += f"\n/-- SKIPPED ({e}) -/\ndef crop_shape_resolve {_CROP_SIG} :=\n  Crop.cropShapeResolve form ndim crop keyVal slices\n"
+        status["crop_shape_resolve"] = f"skipped: {e}"
     return text, status
 
 
